@@ -161,7 +161,7 @@ func (c *efConfig) run(fn *ssa.Function, tracked map[int]bool, env map[int]bool)
 		if call := callOf(atom); call != nil && holds {
 			if sc := call.Common().StaticCallee(); sc != nil {
 				if idx, isV := c.validators[sc]; isV && idx < len(call.Common().Args) {
-					if sc.Name() != "IsZero" || c.useZero {
+					if cname(sc) != "IsZero" || c.useZero {
 						cleaned = append(cleaned, call.Common().Args[idx])
 					}
 				}
@@ -256,7 +256,7 @@ func (c *efConfig) run(fn *ssa.Function, tracked map[int]bool, env map[int]bool)
 				}
 				args := com.Args
 				// target flag: bitSet.Set(bs, v.id, true)
-				if sc != nil && sc.Name() == "Set" && typeName(recvType(sc)) == "bitSet" && len(args) == 3 {
+				if sc != nil && cname(sc) == "Set" && typeName(recvType(sc)) == "bitSet" && len(args) == 3 {
 					if cb, ok := constBool(args[2]); ok && cb {
 						if idc := idOf(args[1]); idc != nil && record {
 							res.events = append(res.events, efEvent{Kind: "sink:target-flag", Instr: ins, Dirty: dirtyVal(st, idc)})
